@@ -66,6 +66,8 @@ func main() {
 			usage()
 		}
 		os.Exit(pcv.RunCheck(pos[0], *repo, *verif, *tier, *only, seed, start))
+	case "checkall":
+		os.Exit(pcv.RunAll(*repo, *verif))
 	case "witness":
 		if len(pos) < 1 {
 			usage()
